@@ -95,6 +95,12 @@ func Nodes2(level int) []N2 {
 			d1 = append(d1, RotateCopy2(c, n, n <= 7, false))
 		}
 	}
+	// operands straddling the x axis asymmetrically (the corner farthest from the origin is a mixed one:
+	// Max.X with Min.Y), odd copy counts: out of the domain of the value reference, in the domain of C01
+	for _, n := range []int{3, 5} {
+		d1 = append(d1, RotateCopy2(tr2(pick2(leaves, "Box2D(2x1,r=0)")[0], 2.5, -0.25), n, false, false),
+			RotateCopy2(tr2(pick2(leaves, "Polygon2D(L-shape)")[0], 1, -2.5), n, false, false))
+	}
 	// binary operators over a subset, plain and blended
 	bsub := rep[:8]
 	for _, op := range []string{"Union", "Difference", "Intersect"} {
@@ -201,6 +207,10 @@ func Nodes3(level int) []N3 {
 		for _, c := range asym {
 			d1 = append(d1, RotateCopy3(c, n, true, false))
 		}
+	}
+	for _, n := range []int{3, 5} {
+		d1 = append(d1, RotateCopy3(tr3(pick3(leaves, "Box3D(2x1x3,r=0)")[0], v3.Vec{X: 2.5, Y: -0.25}), n, false, false),
+			RotateCopy3(tr3(pick3(leaves, "Cone3D(h=4,r0=2,r1=1,round=0)")[0], v3.Vec{X: 3, Y: -1.5, Z: 1}), n, false, false))
 	}
 	bsub := rep[:8]
 	for _, op := range []string{"Union", "Difference", "Intersect"} {
